@@ -87,6 +87,32 @@ def common_zone_status(i4, i5, rng, z):
     return a, b
 
 
+def init_with_drop(rig, step: int):
+    rig.console.silent_from = step
+    t = rig.start(rig.at.init())
+    rig.advance(256)
+    cur = rig.net.current()
+    rig.console.silent_from = None
+    if cur is not None:
+        cur.transport.peer_reset()
+    rig.pump()
+    for _ in range(400):
+        if t.done():
+            break
+        nt = rig.loop.next_timer()
+        if nt is None:
+            break
+        rig.loop.advance_to(nt)
+        rig.pump()
+    if not t.done():
+        t.cancel()
+        rig.pump()
+        return ("hang", None)
+    if t.exception() is not None:
+        return ("exc", type(t.exception()).__name__)
+    return ("ok", t.result())
+
+
 def common_view(at) -> dict:
     """every attribute both generations support"""
     out = {"update": at.update_available, "versions": list(at.console_versions), "acs": {}, "zones": {}}
@@ -156,7 +182,7 @@ def check_c19(tier: str) -> int:
     rng = random.Random(ck.seed * 49979687 + 19)
     dist = Counter()
     reported = Counter()
-    for i in range(40 if tier == "quick" else 800):
+    for i in range(56 if tier == "quick" else 1000):
         i4, i5 = common_installation(rng)
         for a4, a5 in zip(i4.acs, i5.acs):
             i4.ac_status[a4.number], i5.ac_status[a5.number] = common_ac_status(i4, i5, rng, a4.number)
@@ -167,8 +193,26 @@ def check_c19(tier: str) -> int:
         r4 = console.ApiRig(i4, rng, record_sends=True)
         r5 = console.ApiRig(i5, rng, record_sends=True)
         try:
-            if r4.init()[0] != ("ok", True) or r5.init()[0] != ("ok", True):
-                ck.violation("equivalent consoles: one client did not initialise", {"kind": "init", "trigger": {"class": "init"}})
+            drop_at = rng.choice([None, None, None, 1, 2, 3, 4, 5])
+            if drop_at is None:
+                res = (r4.init()[0], r5.init()[0])
+            else:
+                # the connection is lost in the middle of the start-up exchange (both consoles fall silent from the same
+                # request on and drop the link a quarter of a second later), then everything works again
+                res = (init_with_drop(r4, drop_at), init_with_drop(r5, drop_at))
+                dist["init_with_link_loss_mid_handshake"] += 1
+            if drop_at is not None and res[0] == res[1] and res[0][0] == "ok":
+                dist[f"init_with_link_loss_result_{res[0][1]}"] += 1
+                if res[0][1] is not True:
+                    # both generations give up alike (a request of the start-up exchange that was lost with the link is
+                    # not repeated by either): nothing to compare
+                    continue
+            if res != (("ok", True), ("ok", True)):
+                ck.violation("equivalent consoles: one client did not initialise",
+                             {"kind": "init", "trigger": {"class": "init"}, "link_lost_at_handshake_step": drop_at,
+                              "installation": {"acs": [dataclasses.asdict(a) | {"groups": sorted(a.groups) if a.groups is not None else None} for a in i4.acs],
+                                               "zones": i4.zones},
+                              "failure": f"init() on AirTouch 4 -> {res[0]}, on AirTouch 5 -> {res[1]}"})
                 continue
             replay = {"installation": {"acs": [dataclasses.asdict(a) | {"groups": sorted(a.groups) if a.groups is not None else None} for a in i4.acs],
                                        "zones": i4.zones}}
